@@ -91,6 +91,8 @@ def impl_answers(code, q, ref_status, ref_answers, ref_steps, setup=None, yp_out
             setup(yp)
         st, out = impl.run_query(yp, q, max(k, 1))
         return ('ok', st, out)
+    except impl.ImplWork:
+        return ('work', 'term-copying-work-budget', '')
     except impl.ImplBudget:
         return ('exc', 'impl-does-not-terminate', 'more than 10x+500 the calls the reference needed')
     except Budget as e:
@@ -364,6 +366,9 @@ class ProgramDiff(Prop):
                 classes.add('crosschecked-second-engine')
             yps = []
             r = impl_answers(code, q, st, ref, it.steps, yp_out=yps, setup=impl_setup if dyn else None)
+            if r[0] == 'work':
+                classes.add('query-too-expensive(term-copying work budget)')
+                continue
             decided += 1
             if r[0] == 'exc':
                 return FAIL('exception:' + r[1], {'text': case['text'], 'query': show(q), 'error': r[2],
